@@ -244,9 +244,20 @@ def parse_stmt(line):
     if m and not re.match(r'^(copy |move |const |&)', m.group(2)):
         dest = parse_place(m.group(1))[0]
         body = m.group(2) + ')'
-        # split func(args): find '(' matching final ')'
+        # split func(args): find the '(' matching the final ')', ignoring parentheses inside string literals
+        instr = [False] * len(body); j = 0
+        while j < len(body):
+            if body[j] == '"':
+                k2 = j + 1
+                while k2 < len(body) and body[k2] != '"':
+                    if body[k2] == '\\': k2 += 1
+                    k2 += 1
+                for q in range(j, min(k2 + 1, len(body))): instr[q] = True
+                j = k2 + 1
+            else: j += 1
         depth = 0; k = None
-        for j in range(len(body)-1, -1, -1):
+        for j in range(len(body) - 1, -1, -1):
+            if instr[j]: continue
             if body[j] == ')': depth += 1
             elif body[j] == '(':
                 depth -= 1
